@@ -11,6 +11,8 @@ std::vector<i64> k_set(i64 period, i64 xmax_abs, bool nonneg_only)
   for( i64 k = -64; k <= 64; ++k ) ks.push_back(k);
   for( int j = 6; j <= 44; ++j ) for( i64 base : { (1ll << j) - 1, 1ll << j, (1ll << j) + 1, 3ll << (j - 1) } )
     { ks.push_back(base); ks.push_back(-base); }
+  // eight further k per binade (2^j * (1 + i/8) + i): bands of k that contain no power of two
+  for( int j = 6; j <= 44; ++j ) for( i64 i = 1; i < 8; ++i ) { i64 base = (1ll << j) + (i << (j - 3)) + i; ks.push_back(base); ks.push_back(-base); }
   std::vector<i64> r;
   for( i64 k : ks )
     {
